@@ -257,8 +257,18 @@ def gen_case_scenario(rng, max_ops=26):
             ops.append([1, a, rng.randrange(nb), G.gen_amount(rng) % (1 << 61), rng.randrange(2)])
         elif r < 0.96:
             ops.append([2, 0, rng.randrange(nb), rng.choice([1, big // 2, big, big + 1]), 1 if rng.random() < 0.3 else 0])
-        else:
+        elif r < 0.98:
             ops.append([7, a, rng.choice([c, d])])
+        else:
+            # open a position, empty it with an exact partial withdrawal, let time pass, close the balance
+            bx = rng.randrange(nb)
+            amt = rng.choice([1, 1000, 10 ** 6])
+            aa = rng.randrange(na)
+            ops.append([1, aa, bx, amt, 0])
+            ops.append([2, aa, bx, amt, 0])
+            now += rng.choice([1, 3600, 86400 * 30])
+            ops.append([0, now])
+            ops.append([7, aa, bx])
     toks = [nb, na] + pf + [banks[0][7]]
     for bk in banks:
         toks += bk
@@ -305,7 +315,7 @@ BANK_F = ["asv", "lsv", "tas", "tls", "ins", "grp", "prog", "last_update", "em_r
           "flags", "op_state", "vault", "insv", "feev", "feeata"]
 
 
-def parse_out(line, nb):
+def parse_out(line, nb, with_refs=False):
     """[(res, [bank dicts], [acct dicts])]"""
     out = []
     for seg in line.split(" | "):
@@ -324,5 +334,15 @@ def parse_out(line, nb):
                     g = list(map(int, s.split(":")))
                     slots.append(dict(zip(["slot", "bank", "tag", "a", "l", "em", "last"], g)))
             accts.append({"slots": slots, "flags": int(f[1]), "tok": list(map(int, f[2:2 + nb]))})
-        out.append((res, banks, accts))
+        if len(parts) > 3 and with_refs:
+            r = parts[3].strip()
+            refs = None
+            if r.startswith("R ") and r != "R -":
+                refs = []
+                for x in r[2:].split(" ; "):
+                    a, l = x.split()
+                    refs.append(None if a == "X" else (int(a), int(l)))
+            out.append((res, banks, accts, refs))
+        else:
+            out.append((res, banks, accts))
     return out
